@@ -1,10 +1,124 @@
 import Driver.Loop
 import IrohModel.C04.Model
-open IrohModel
+import IrohModel.C04.WireModel
+open IrohModel IrohModel.RelayRegistry IrohModel.RelaySched
 
-/-- payload: the harness script (see `harness/hrelay/src/relayreg.rs`);
-output: per operation what every connection received, which actors ended, the registry. -/
+/-!
+Driver for C04.  Two payload kinds:
+* a registry script (see `harness/hrelay/src/relayreg.rs`): replayed on the registry model with
+  abstract contents tokens;
+* `W <cap> <keys>;op;…` — WIRE mode (see `harness/hrelay/src/bin/c04.rs`): datagram operations are
+  byte strings; they go through the composed model `C04/WireModel.lean`
+  (C10 `decodeC2R` → registry → C10 `encode`), and what a connection receives is shown as the
+  receiving client decodes it (C10 `decodeR2C` in the connection's protocol version).
+-/
+
+namespace WireDrv
+open IrohModel.C04
+
+/-- The harness' pseudo-random contents `p<len>.<seed>` (xorshift64, little endian). -/
+def prgBytes (len seed : Nat) : Bytes :=
+  let x0 : UInt64 := (UInt64.ofNat seed * 0x9E3779B97F4A7C15) ^^^ 0xD1B54A32D192ED03
+  let rec go (fuel : Nat) (x : UInt64) (acc : List (List UInt8)) : List (List UInt8) :=
+    match fuel with
+    | 0 => acc.reverse
+    | fuel + 1 =>
+      let x := x ^^^ (x <<< 13)
+      let x := x ^^^ (x >>> 7)
+      let x := x ^^^ (x <<< 17)
+      let bs := (List.range 8).map fun i => (x >>> (UInt64.ofNat (8 * i))).toUInt8
+      go fuel x (bs :: acc)
+  ((go (len / 8 + 1) x0 []).flatten).take len
+
+def tokBytes (s : String) : Option Bytes :=
+  if s.startsWith "p" then
+    match ((s.drop 1).toString.splitOn ".") with
+    | [l, sd] => do pure (prgBytes (← l.toNat?) (← sd.toNat?))
+    | _ => none
+  else bytesOfHex s
+
+def ecnOfNat : Nat → Option C10.Ecn
+  | 1 => some .ect1
+  | 2 => some .ect0
+  | 3 => some .ce
+  | _ => none
+
+def mkKm (keys : List Bytes) : KeyMap :=
+  let valid := keys.take 8
+  { validKey := fun k => valid.contains k,
+    keyOf := fun i => keys.getD i [],
+    idOf := fun k => (valid.findIdx? (· == k)).getD 999 }
+
+/-- `<len>:<sum of (i+1)·byte_i mod 2^32>` — how both sides show datagram contents. -/
+def cstr (bs : Bytes) : String :=
+  let (sum, _) := bs.foldl (fun (acc : Nat × Nat) b => ((acc.1 + (acc.2 + 1) * b.toNat) % 4294967296, acc.2 + 1)) (0, 0)
+  s!"{bs.length}:{sum}"
+
+def showR2C (km : KeyMap) : C10.Res C10.RelayToClientMsg → String
+  | .ok (.datagrams k d) => s!"D{km.idOf k}.{C10.ecnBits d.ecn}.{d.segmentSize.getD 0}.{cstr d.contents}"
+  | .ok (.endpointGone k) => s!"G{km.idOf k}"
+  | .ok (.status .healthy) => "S0"
+  | .ok (.status .sameEndpointIdConnected) => "S1"
+  | .ok (.status _) => "S?"
+  | .ok (.health p) =>
+    if p == statusText .healthy then "H0" else if p == statusText .sameIdConnected then "H1" else "H?"
+  | .ok (.pong d) => s!"P{hexOfBytes d}"
+  | .ok (.ping d) => s!"I{hexOfBytes d}"
+  | .ok (.restarting _ _) => "R"
+  | .error _ => "E"
+
+/-- A frame written to connection `c`, as its client decodes the bytes. -/
+def render (km : KeyMap) (before : State D) (c : Cid) (f : R2C D) : String :=
+  let v : C10.Version := match before.conns c with
+    | some x => if x.v1 then .v1 else .v2
+    | none => .v2
+  showR2C km (clientDecode km v (wireOut km f))
+
+def honest (km : KeyMap) (dst ecn seg : Nat) (contents : Bytes) : Bytes :=
+  clientEncode km dst { ecn := ecnOfNat ecn, segmentSize := if seg = 0 then none else some seg, contents := contents }
+
+def setAt (bs : Bytes) (i : Nat) (f : UInt8 → UInt8) : Bytes :=
+  bs.mapIdx fun j b => if j = i then f b else b
+
+def parseWire (km : KeyMap) (s : String) : Option (SOp D) :=
+  match tokens s with
+  | ["wsend", c, dst, ecn, seg, tok] => do
+    let bs := honest km (← dst.toNat?) (← ecn.toNat?) (← seg.toNat?) (← tokBytes tok)
+    pure (.decoded (← c.toNat?) (wireIn km bs))
+  | ["wmut", c, dst, ecn, seg, tok, kind, a, b] => do
+    let bs := honest km (← dst.toNat?) (← ecn.toNat?) (← seg.toNat?) (← tokBytes tok)
+    let a ← a.toNat?
+    let b ← b.toNat?
+    let bs' ← (match kind with
+      | "trunc" => some (bs.take a)
+      | "flip" => some (setAt bs a (fun x => x ^^^ UInt8.ofNat b))
+      | "app" => some (bs ++ List.replicate a (UInt8.ofNat b))
+      | _ => none)
+    pure (.decoded (← c.toNat?) (wireIn km bs'))
+  | ["wraw", c, hex] => do pure (.decoded (← c.toNat?) (wireIn km (← bytesOfHex hex)))
+  | _ => parseCtl s
+
+def run (payload : String) : String :=
+  match payload.splitOn ";" with
+  | [] => "bad-input"
+  | hd :: opsS =>
+    match tokens hd with
+    | ["W", cap, keys] =>
+      match cap.toNat?, (keys.splitOn ",").mapM bytesOfHex with
+      | some cap, some keys =>
+        let km := mkKm keys
+        match (opsS.filter (fun o => !(tokens o).isEmpty)).mapM (parseWire km) with
+        | none => "bad-input"
+        | some ops => runScript (render km) (wcfg cap) 8 ops
+      | _, _ => "bad-input"
+    | _ => "bad-input"
+
+end WireDrv
+
+/-- payload: the harness script; output: per operation what every connection received,
+which actors ended, the registry. -/
 def handleLine (payload : String) : String :=
-  RelaySched.runPayload C04.driverCfg 8 payload
+  if payload.startsWith "W " then WireDrv.run payload
+  else RelaySched.runPayload C04.driverCfg 8 payload
 
 def main : IO Unit := Driver.run handleLine
